@@ -301,3 +301,46 @@ Proof.
   change (2 ^ 23) with 8388608 in *.
   replace (255 * 8388608 <=? q) with false by (symmetry; apply N.leb_gt; lia). reflexivity.
 Qed.
+
+(** *** f64 -> f32: the remaining inputs (zeros, subnormal f64, infinities, NaN) *)
+Lemma round_even_tiny m s : m < 2 ^ (s - 1) -> 0 < s -> round_even m s = 0.
+Proof.
+  intros Hm Hs. unfold round_even. replace (s =? 0) with false by (symmetry; apply N.eqb_neq; lia). cbv zeta.
+  assert (Hq : N.shiftr m s = 0).
+  { rewrite N.shiftr_div_pow2. apply N.div_small. eapply N.lt_le_trans; [exact Hm|]. apply N.pow_le_mono_r; lia. }
+  rewrite Hq, N.shiftl_0_l, N.sub_0_r, N.shiftl_1_l.
+  replace (2 ^ (s - 1) <? m) with false by (symmetry; apply N.ltb_ge; lia).
+  replace (m =? 2 ^ (s - 1)) with false by (symmetry; apply N.eqb_neq; lia). reflexivity.
+Qed.
+
+Theorem f32_of_f64_special b :
+  let sign := N.testbit b 63 in
+  let ef := N.land (N.shiftr b 52) 2047 in
+  let mf := N.land b 4503599627370495 in
+  let signbit := if sign then 2 ^ 31 else 0 in
+  (ef = 2047 -> mf = 0 -> f32_of_f64 b = signbit + 255 * 2 ^ 23)          (* infinities keep their sign *)
+  /\ (ef = 2047 -> mf <> 0 -> f32_of_f64 b = nan32)                       (* every NaN becomes the canonical one *)
+  /\ (ef = 0 -> mf = 0 -> f32_of_f64 b = signbit)                          (* zeros keep their sign *)
+  /\ (ef = 0 -> mf <> 0 -> f32_of_f64 b = signbit).                        (* a subnormal f64 is far below half the least f32 *)
+Proof.
+  cbv zeta. unfold f32_of_f64. cbv zeta.
+  set (ef := N.land (N.shiftr b 52) 2047). set (mf := N.land b 4503599627370495).
+  assert (Hmf : mf < 2 ^ 52).
+  { unfold mf. change 4503599627370495 with (N.ones 52). rewrite N.land_ones. apply N.mod_lt. discriminate. }
+  change 2147483648 with (2 ^ 31). change 2139095040 with (255 * 2 ^ 23).
+  repeat split; intros He Hm; rewrite He; cbn [N.eqb Pos.eqb].
+  - rewrite Hm. reflexivity.
+  - replace (mf =? 0) with false by (symmetry; apply N.eqb_neq; exact Hm). reflexivity.
+  - rewrite Hm. reflexivity.
+  - replace (mf =? 0) with false by (symmetry; apply N.eqb_neq; exact Hm).
+    assert (Hk : N.size mf <= 52).
+    { destruct (N.eq_dec mf 0) as [->|Hz]; [cbn; lia|]. rewrite N.size_log2 by exact Hz.
+      assert (N.log2 mf < 52) by (apply N.log2_lt_pow2; lia). lia. }
+    assert (Henc : forall sg, encode 24 8 sg mf (-1074) = (if sg then N.shiftl 1 (24 - 1 + 8) else 0) + 0).
+    { intros sg. unfold encode. cbv zeta. change (N.shiftl 1 (8 - 1) - 1) with 127. change (Z.of_N 127) with 127%Z.
+      replace (1 - 127 <=? -1074 + Z.of_N (N.size mf) - 1)%Z with false by (symmetry; apply Z.leb_gt; lia).
+      change (Z.to_N (1 - 127 - Z.of_N 24 + 1 - -1074)) with 925.
+      rewrite (round_even_tiny mf 925); [reflexivity| |lia].
+      eapply N.lt_le_trans; [exact Hmf|]. apply N.pow_le_mono_r; lia. }
+    rewrite Henc, N.add_0_r. destruct (N.testbit b 63); reflexivity.
+Qed.
